@@ -473,6 +473,10 @@ func (w *world) afterAck(c *xchain, in *intent, out *txOutcome) {
 		w.rec.Violate("C02", "ack_without_commitment", "ack", "ack for %s accepted although this chain did not hold the commitment of exactly that packet", triple)
 		return
 	}
+	if pk.agent != nil && pk.agent.cbBad && !pk.nested {
+		// the sender's callback fails: processing this acknowledgement cannot have completed
+		w.rec.Violate("C05", "ack_processed_with_failed_callback", fmt.Sprintf("code%d", minU(aCodeOf(msg.Acknowledgement), 9)), "acknowledgement for %s accepted although the sender's callback reverts: the commitment is gone, refund/callback effects are not", triple)
+	}
 	pk.ackCount++
 	if pk.ackCount > 1 {
 		w.rec.Violate("C05", "ack_twice", dupShape(rm), "acknowledgement for %s processed %d times", triple, pk.ackCount)
@@ -728,4 +732,11 @@ func (w *world) resync(c *xchain, in *intent, out *txOutcome) {
 	} else if out.ok {
 		c.lastBal = w.balances(c)
 	}
+}
+
+func aCodeOf(bz []byte) uint64 {
+	if a, err := DecodeAck(bz); err == nil {
+		return a.Code
+	}
+	return 99
 }
